@@ -332,6 +332,9 @@ func indexHeader(
 						return err
 					}
 
+					// The content stays, so does its size (the record itself carries none, and only headers written by STFS repeat it in `STFS.UncompressedSize`)
+					h.Size = oldHdr.Size
+
 					newHdr = h
 
 					if err := metadataPersister.UpdateHeaderMetadata(context.Background(), converters.DBHeaderToConfigHeader(newHdr)); err != nil {
